@@ -61,6 +61,25 @@ def variants(ctx, base, wd, tfile):
     return vs
 
 
+def product_configs(ctx):
+    """systematic product (seed C12-H: a cache refreshed only when somebody looks): {wake, no wake} x RenormalizeCharge
+    {<0, 0, k} x output cadence {0, 1 (the reference), coprime with k, multiple of k} - so that a renormalisation step is an output
+    step in one run and lies some steps after the last output in another, with and without self-interaction.  Small grids; the run
+    is 3k+2 steps long so that every cadence has renormalisation steps after its last record."""
+    rng = ctx.rng
+    res = []
+    for wake in (True, False):
+        k = rng.choice([2, 3, 4, 5])
+        cop = rng.choice([c for c in (2, 3, 5, 7) if c % k and k % c])      # shares no factor with k
+        mult = k * rng.choice([1, 2])
+        for renorm in (-1, 0, k):
+            base = dict(n=rng.choice([16, 24]), N=3 * k + 2, T=1, renorm=renorm, wake=wake, dynrf=False, outstep=1, h5save=1,
+                        tracking=None, verbose=False)
+            vs = [dict(base, outstep=o, h5save=rng.choice([0, 1, 2]), tag="prod_o%d" % o) for o in (0, cop, mult)]
+            res.append((base, vs))
+    return res
+
+
 def check_pair(ctx, tg, ref, href, var, wd, points, nsetup, dis, key):
     """runs one variant; model correspondence + the C12 oracle against the reference file"""
     out = os.path.join(wd, (var.get("name") or ("v_" + var["tag"])) + ".h5")
@@ -102,7 +121,8 @@ def check_pair(ctx, tg, ref, href, var, wd, points, nsetup, dis, key):
 def run(ctx):
     ctx.rule = ("base configurations drawn from the seed (grid 16/24/32, 5-20 steps, renormalisation off/initial/periodic, "
                 "wake on/off, RF modulation on/off); for each, a reference run with a full record at every step and "
-                "variants outstep x SavePhaseSpace, verbose, renamed output, tracking, repeat; every record of every "
+                "variants outstep x SavePhaseSpace, verbose, renamed output, tracking, repeat; plus the systematic product {wake, no wake} x "
+                "RenormalizeCharge {<0, 0, k} x outstep {0, 1, coprime with k, multiple of k} on runs of 3k+2 steps; every record of every "
                 "variant compared bit for bit with the reference record of the same step; non-trivial = at least one "
                 "row compared and the phase space actually changes during the run")
     coq = vp_coq.full_check("C12", ctx, fams=("driver",))
@@ -149,6 +169,21 @@ def run(ctx):
             # tracking on/off: everything but the particle records
             check_pair(ctx, tg, reft, hreft, dict(base, outstep=3, h5save=2, tag="tracking-off"), wd, points, nsetup, dis, "b%d:" % bi)
             ntr += 2
+    # the systematic product of self-interaction x renormalisation schedule x output cadence
+    for bi, (base, vs) in enumerate(product_configs(ctx)):
+        dc.run_real(tg, dict(base, outstep=0, h5save=0), os.path.join(wd, "warm.h5"), want_trace=False)
+        refout = os.path.join(wd, "pref%d.h5" % bi)
+        r = dc.run_real(tg, base, refout)
+        href = dc.h5read(tg, refout)
+        nsetup = len([l for l in r["labels"] if l.startswith("setup:")])
+        if href is None or r["rc"] != 0:
+            ctx.violation("impl-oracle", "reference run failed", case=dict(cmd=r["cmd"]), observed=r["log"][-400:],
+                          sig={"oracle": "run-failed"})
+            continue
+        for var in vs:
+            check_pair(ctx, tg, base, href, var, wd, points, nsetup, dis, "p%d:" % bi)
+            ctx.count("product:%s:renorm%s" % ("wake" if base["wake"] else "nowake", "<0" if base["renorm"] < 0 else ("0" if base["renorm"] == 0 else "k")))
+            ntr += 1
     ctx.extra["traces_validated_against_impl"] = ntr
     ctx.extra["correspondence_disagreements"] = len(dis)
     shutil.rmtree(wd, ignore_errors=True)
